@@ -102,8 +102,52 @@ def final_verdict(eng: Engine, fn: FuncInfo) -> Optional[Verdict]:
     """The fitness constructor whose result is stored in the memo / returned last."""
     ctors = [n for n in ast.walk(fn.node) if isinstance(n, ast.Call) and call_name(n) in FITNESS_CTORS]
     if not ctors:
-        return None
+        return _aggregating_helper(eng, fn)
     # the last one in source order is the aggregate; earlier ones are early exits
+    ctors.sort(key=lambda c: (c.lineno, c.col_offset))
+    best: Optional[Verdict] = None
+    for c in ctors:
+        s = ctor_arg(eng, fn, c, "success")
+        if s is None:
+            continue
+        v = classify_success(eng, fn, s)
+        v.ctor = c
+        if v.kind in ("COUNT", "ALL1", "AGG"):
+            best = v
+    return best or _aggregating_helper(eng, fn)
+
+
+def _aggregating_helper(eng: Engine, fn: FuncInfo) -> Optional[Verdict]:
+    """The verdict of `return self._aggregate(values)` / `fitness = self._aggregate(values)`: when the function builds no
+    aggregate itself but calls one helper of the package that ends in an all/any aggregation over one of its parameters, the
+    verdict is that aggregation over the argument the caller passes (a local list of the caller)."""
+    found: list[Verdict] = []
+    for c in walk_local(fn.node):
+        if not isinstance(c, ast.Call) or call_name(c) in FITNESS_CTORS:
+            continue
+        if not (isinstance(c.func, ast.Name) or (isinstance(c.func, ast.Attribute) and isinstance(c.func.value, ast.Name))):
+            continue
+        tgs, _how = eng.cg.resolve_call(fn, c)
+        for t in tgs:
+            h = eng.cg.funcs.get(t)
+            if h is None or h is fn or h.module != fn.module:
+                continue
+            hv = final_verdict_local(eng, h)
+            if hv is None or hv.kind != "AGG":
+                continue
+            ps = [p_ for p_ in h.params() if p_ not in ("self", "cls")]
+            if hv.lst not in ps:
+                continue
+            arg = get_kwarg(c, hv.lst)
+            if arg is None and ps.index(hv.lst) < len(c.args):
+                arg = c.args[ps.index(hv.lst)]
+            if isinstance(arg, ast.Name):
+                found.append(Verdict(fn, hv.ctor, "AGG", lst=arg.id, agg=hv.agg, success_expr=hv.success_expr))
+    return found[0] if len(found) == 1 else None
+
+
+def final_verdict_local(eng: Engine, fn: FuncInfo) -> Optional[Verdict]:
+    ctors = [n for n in ast.walk(fn.node) if isinstance(n, ast.Call) and call_name(n) in FITNESS_CTORS]
     ctors.sort(key=lambda c: (c.lineno, c.col_offset))
     best: Optional[Verdict] = None
     for c in ctors:
